@@ -80,7 +80,7 @@ let handle_line line =
        | Some i when i + 2 <= String.length cfg && cfg.[i + 1] = 'r' ->
          (String.sub cfg 0 i, String.sub cfg (i + 2) (String.length cfg - i - 2))
        | _ -> (cfg, "10485760")) in
-    (match batch_cfg cfg, (match tr with "http" | "httpl" | "httpc" -> Some Http | "ws" | "wsb" -> Some Ws | _ -> None) with
+    (match batch_cfg cfg, (match tr with "http" | "httpl" | "httpc" | "httpk" -> Some Http | "ws" | "wsb" -> Some Ws | _ -> None) with
      | Some bc, Some t ->
        let c = { sc_max_response = n_of_string rs; sc_batch = bc } in
        let b = bytes_of_hex (if hx = "-" then "" else hx) in
